@@ -175,6 +175,7 @@ type Interp struct {
 	depth    int
 	IsLog    func(*ssa.CallCommon) bool
 	InScope  func(*ssa.Function) bool
+	GoInline bool // run goroutines synchronously at their go statement
 	Trace    []string // branch decisions, for witnesses
 	Deferred [][]func()
 	CurFn    Value // for dynamic calls: the evaluated function value, visible to Oracle.Call
@@ -351,7 +352,13 @@ func (ip *Interp) CallFunction(fn *ssa.Function, args []Value, bind []Value) Val
 				m.IsNil = false
 			case *ssa.DebugRef:
 			case *ssa.Go:
-				undecided("go statement in %s", fn)
+				if !ip.GoInline {
+					undecided("go statement in %s", fn)
+				}
+				// sequential schedule: the goroutine runs to completion at its go statement (only for properties
+				// that do not depend on the interleaving)
+				args, _ := ip.evalArgs(f, x.Common())
+				ip.call(f, x, args)
 			case *ssa.Defer:
 				args, _ := ip.evalArgs(f, x.Common())
 				site := x
@@ -466,6 +473,13 @@ func isPtrToStruct(t types.Type) bool {
 	return ok
 }
 
+// MapIter is the iterator of a range over a map (keys in sorted order: one fixed enumeration).
+type MapIter struct {
+	M    *MapVal
+	Keys []string
+	I    int
+}
+
 // ZeroOf builds the abstract zero value of a type.
 func (ip *Interp) ZeroOf(t types.Type) Value {
 	switch u := t.Underlying().(type) {
@@ -526,6 +540,12 @@ func (ip *Interp) LoadField(obj *Tok, name string, typ types.Type) Value {
 	var v Value
 	if ip.O != nil {
 		v = ip.O.Field(ip, obj, name, typ)
+	}
+	if v == nil && obj.Attr["zeroed"] != nil {
+		v = ip.ZeroOf(typ)
+		if t, ok := v.(*Tok); ok {
+			t.Attr["zeroed"] = Bool(true)
+		}
 	}
 	if v == nil {
 		switch u := typ.Underlying().(type) {
@@ -717,7 +737,9 @@ func (ip *Interp) step(f *frame, v ssa.Value) Value {
 		et := x.Type().Underlying().(*types.Pointer).Elem()
 		switch u := et.Underlying().(type) {
 		case *types.Struct:
-			return ip.Fresh("alloc:" + x.Comment)
+			t := ip.Fresh("alloc:" + x.Comment)
+			t.Attr["zeroed"] = Bool(true) // a freshly allocated struct: unset fields read as zero values
+			return t
 		case *types.Array:
 			a := &Array{}
 			for i := int64(0); i < u.Len(); i++ {
@@ -904,7 +926,38 @@ func (ip *Interp) step(f *frame, v ssa.Value) Value {
 			panic(&GoPanic{Msg: "interface conversion failed: " + Show(val) + " is not " + x.AssertedType.String()})
 		}
 		return val
-	case *ssa.Range, *ssa.Next, *ssa.Select, *ssa.MakeChan:
+	case *ssa.Range:
+		m, ok := ip.eval(f, x.X).(*MapVal)
+		if !ok {
+			undecided("range over %s in %s", Show(ip.eval(f, x.X)), f.fn)
+		}
+		mt, isMap := x.X.Type().Underlying().(*types.Map)
+		if !isMap {
+			undecided("range over a non-map in %s", f.fn)
+		}
+		if b, isB := mt.Key().Underlying().(*types.Basic); !isB || b.Info()&types.IsString == 0 {
+			undecided("range over a map with non-string keys in %s", f.fn)
+		}
+		it := &MapIter{M: m}
+		for k := range m.M {
+			it.Keys = append(it.Keys, k)
+		}
+		sort.Strings(it.Keys)
+		return it
+	case *ssa.Next:
+		it, ok := ip.eval(f, x.Iter).(*MapIter)
+		if !ok {
+			undecided("next on %s in %s", Show(ip.eval(f, x.Iter)), f.fn)
+		}
+		for it.I < len(it.Keys) {
+			k := it.Keys[it.I]
+			it.I++
+			if val, present := it.M.M[k]; present {
+				return Tuple{Bool(true), Str(k), val}
+			}
+		}
+		return Tuple{Bool(false), Str(""), Nil{}}
+	case *ssa.Select, *ssa.MakeChan:
 		undecided("instruction %T not modelled in %s", v, f.fn)
 	}
 	undecided("value %T not modelled in %s", v, f.fn)
@@ -1047,6 +1100,13 @@ func Equal(a, b Value) (eq, known bool) {
 			return false, true // a literal never equals a symbolic string token
 		}
 	case *List:
+		if y, ok := b.(*List); ok {
+			// slices compare only with the nil literal: one side is the nil constant
+			xn, yn := x.IsNil && len(x.Elems) == 0, y.IsNil && len(y.Elems) == 0
+			if xn || yn {
+				return xn && yn, true
+			}
+		}
 		if _, ok := b.(Nil); ok {
 			return x.IsNil && len(x.Elems) == 0, true
 		}
